@@ -879,6 +879,9 @@ class Scenario:
             except Panic as p:
                 self.obs(op, 'panicked')
                 self.last_panic = p
+                if 'C03' in self.oracles and 'C11' not in self.oracles:
+                    # the drop was interrupted by a destructor panic: the group must nevertheless have been destroyed in full
+                    self.check_collected()
                 if 'C11' in self.oracles:
                     if not getattr(p, 'where', '') == 'dtor':
                         v = Violation('C11', 'library-panic', 'a panic other than the scripted destructor panic escaped: %s' % p.msg, self.model_values(None))
